@@ -1442,6 +1442,33 @@ def _stmt_end_from_start(toks, start):
     return _stmt_end_after(toks, start)
 
 
+def _hoist_preceding_lets(body_toks, s, a, rep):
+    """A block given by its first statement is extended backwards over immediately preceding `let NAME [: T] = ..;`
+    statements whose NAME the block uses and the wrapper does not bind: a change that introduces a temporary just in front
+    of the block keeps the block within reach.  On the unchanged tree there is no such statement (the block would not
+    type-check without it), so nothing changes there."""
+    wrap_names = set(re.findall(r"[A-Za-z_]\w*", a.get("wrap", "")))
+    while True:
+        p = _prev_sig(body_toks, s)
+        if p < 1 or body_toks[p].text != ";":
+            return s
+        st = _stmt_start_before(body_toks, p, 1)
+        sig = [t for t in body_toks[st:p] if t.kind not in (WS, COMMENT, "raw")]
+        if len(sig) < 4 or sig[0].text != "let":
+            return s
+        k = 1
+        if sig[k].text == "mut":
+            k += 1
+        if sig[k].kind != IDENT or sig[k + 1].text not in ("=", ":"):
+            return s
+        name = sig[k].text
+        used = any(t.kind == IDENT and t.text == name for t in body_toks[s:])
+        if name in wrap_names or not used:
+            return s
+        rep.append(("R0", f"inline block extended backwards over `let {name} = ..;` (bound right in front of the block, used inside it)"))
+        s = st
+
+
 def _stmt_start_before(toks, idx, lo):
     """index of the first token of the statement containing token idx (scan back to the
     previous ';', '{' or '}' at the same depth)."""
@@ -2933,6 +2960,7 @@ def _extract_block(body_toks, frm, to, a, rep):
     if len(hits) != 1:
         raise AnchorLost(f"block_from {frm!r}: {len(hits)} matches")
     s = _stmt_start_before(body_toks, hits[0][0], 1)
+    s = _hoist_preceding_lets(body_toks, s, a, rep)
     if a.get("block_until"):
         # the block ends where the statement holding this anchor STARTS (the anchor statement itself is not part of it):
         # the text of the block's own last statement may change freely
